@@ -128,7 +128,7 @@ def run(ctx):
     ctx.cov["rule"] = ("script = Map/FMap under Lift/Try (LiftF/TryF) with a set of failing elements, capacities 0/1/3, sends+close interleaved with receives on the "
                        "value and the error channel in both orders, final drain; exhaustive failing subsets for inputs up to 4 (thorough: 5); non-trivial = at least one send and one failing element")
     ctx.assumptions += ls.ASSUME
-    ls.regen_stages(ctx, pipe=True, fork=False, sources=True)
+    ls.regen_stages(ctx, pipe=True, fork=False, sources=True, text=True)
     ctx.prove()
     if ctx.thorough():
         ctx.leanchecker()
